@@ -5,7 +5,7 @@ from pyvc import mrun
 import importlib
 mod, fac = sys.argv[1:3]
 jobs = int(sys.argv[3]) if len(sys.argv) > 3 else 12
-r = mrun.run_engine(mod, fac, "quick", jobs=jobs, infer=("--cached" not in sys.argv), log=lambda s: print(s, flush=True))
+r = mrun.run_engine(mod, fac, "quick", jobs=jobs, max_rounds=int(__import__("os").environ.get("VERIF_MAX_ROUNDS", "40")), infer=("--cached" not in sys.argv), log=lambda s: print(s, flush=True))
 if r["error"]:
     print(r["error"]); sys.exit(3)
 eng = getattr(importlib.import_module(mod), fac)()
